@@ -33,11 +33,12 @@ type ctScript struct {
 }
 
 type scriptHub struct {
-	hub     *ckit.EngineHub
-	mu      sync.Mutex
-	scripts map[int]ctScript
-	onStart func(id string) // called after a successful start (the record exists by then)
-	stdin   bool
+	hub      *ckit.EngineHub
+	mu       sync.Mutex
+	scripts  map[int]ctScript
+	onStart  func(id string) // called after a successful start (the record exists by then)
+	onCreate func(id string) // called after a successful create
+	stdin    bool
 }
 
 var (
@@ -89,6 +90,14 @@ func (sh *scriptHub) addNode(cl *ckit.Cluster, s ckit.NodeSpec) {
 type scriptEngine struct {
 	*ckit.FakeEngine
 	sh *scriptHub
+}
+
+func (e *scriptEngine) VirtualizationCreate(ctx context.Context, opts *enginetypes.VirtualizationCreateOptions) (*enginetypes.VirtualizationCreated, error) {
+	r, err := e.FakeEngine.VirtualizationCreate(ctx, opts)
+	if err == nil && e.sh.onCreate != nil {
+		e.sh.onCreate(r.ID)
+	}
+	return r, err
 }
 
 func (e *scriptEngine) VirtualizationStart(ctx context.Context, id string) error {
